@@ -43,7 +43,7 @@ Record reg := Reg {
   r_payload : string;       (* printed argument of NewEnableAfterBecameLeader, "" for other leaves *)
   r_chain : list string;    (* runnable types, outermost first *)
   r_leader_only : bool;     (* measured on the real object: !ok || lr.NeedLeaderElection() *)
-  r_invokes : nat;          (* measured: calls of the enable function during one Start of the real object *)
+  r_invokes : nat;          (* measured: calls of the enable function, with the very context Start was given, during one Start of the real object *)
   r_known : bool            (* the translator resolved the whole expression, and the type that decides the group is real *)
 }.
 
